@@ -198,6 +198,36 @@ Theorem guard_response_fields : forall s idh,
   e_message (guard_err s) = Some (sprintf_d serve_guard_fmt s).
 Proof. exact StatusProofs.guard_response_fields. Qed.
 
+(* Servers with filters (restli.Filter; model Status.serve_f / call_f: PreRequest hooks in order inside receive, PostRequest
+   hooks in reverse order only when receive returned no error).  Without filters it is the model above. *)
+Theorem call_f_nil : forall h m d i, call_f h [] m d i = call h m d i.
+Proof. exact StatusProofs.call_f_nil. Qed.
+
+(* Filters whose hooks do not fail are transparent: every theorem above holds behind them. *)
+Theorem passing_filters_transparent : forall h fs m d i, forallb passing fs = true -> call_f h fs m d i = call h m d i.
+Proof. exact StatusProofs.passing_filters_transparent. Qed.
+
+(* A failed call (error response, other error, panic of the implementation) reaches the client as without filters whatever
+   the PostRequest hooks would return (failing or not): no filter can replace or drop the failure. *)
+Theorem resource_failure_not_masked : forall h fs m i,
+  run_pre_filters fs = None ->
+  (exists l, i_outcome i = OErrResp l) \/ (exists msg, i_outcome i = OPlain msg) \/ (exists msg, i_outcome i = OPanic msg) ->
+  call_f h fs m RqOk i = call h m RqOk i.
+Proof. exact StatusProofs.resource_failure_not_masked. Qed.
+
+(* A failing PreRequest hook answers the request: the implementation is not invoked. *)
+Theorem pre_failure_not_invoked : forall h fs m d i e, run_pre_filters fs = Some e -> snd (serve_f h fs m d i) = false.
+Proof. exact StatusProofs.pre_failure_not_invoked. Qed.
+
+(* Non-vacuity (filters): delete fails with a plain error behind a filter whose PostRequest succeeds and one whose
+   PostRequest fails: the reply is the 500 error response of the failed delete, not a 204 and not the filter's error. *)
+Example c08_filters_nonvacuous :
+  exists r e, call_f [] [ {| f_pre := FOk; f_post := FOk |}; {| f_pre := FOk; f_post := FPlain [x78] |} ]
+                   {| m_kind := RegisterDelete; m_name := [x64; x65; x6c; x65; x74; x65] |} RqOk
+                   {| i_override := None; i_outcome := OPlain [x62; x6f; x6f; x6d]; i_created_status := 0; i_id_marshals := true |}
+              = Exchanged r (CError e true) [] true /\ r_status r = 500 /\ r_errhdr r = true.
+Proof. eexists. eexists. vm_compute. repeat split. Qed.
+
 (* Non-vacuity: get returns &ErrorResponse{Status: 404, ServiceErrorCode: 7} held at location 0; the wire carries 404, the
    error header and the object with the message "Not Found"; the client's error carries the same; the heap is unchanged. *)
 Example c08_nonvacuous :
@@ -233,3 +263,7 @@ Print Assumptions invalid_error_status_is_500.
 Print Assumptions invalid_success_status_is_500.
 Print Assumptions invalid_status_is_500.
 Print Assumptions guard_response_fields.
+Print Assumptions call_f_nil.
+Print Assumptions passing_filters_transparent.
+Print Assumptions resource_failure_not_masked.
+Print Assumptions pre_failure_not_invoked.
